@@ -31,9 +31,9 @@ theorem frag_pairsLoop {σ ι : Type} (one : σ → PM σ) (pcs : ι → List Pi
     (P Pone : Tok → Prop) (N N1 : Option Nat → Prop)
     (hP : ∀ t, P t → [tComma].contains t.typ = false ∧ Pone t)
     (hcomma : ∀ t, t.typ = tComma → Pone t)
-    (hN : ∀ nx, N nx → N1 nx) (hN44 : N1 (some 44))
-    (hhead : ∀ i line, ∃ t, (mkToks line (pcs i)).head? = some t ∧ [tEOL].contains t.typ = false) :
+    (hN : ∀ nx, N nx → N1 nx) (hN44 : N1 (some 44)) :
     ∀ (items : List ι) (st0 : σ) (i0 : ι) (n : Nat), items.length < n →
+      (∀ i ∈ items, ∀ line, ∃ t, (mkToks line (pcs i)).head? = some t ∧ [tEOL].contains t.typ = false) →
       (∀ pre i post, i0 :: items = pre ++ i :: post →
         Frag (one (pre.foldl upd st0)) (pcs i) ((pre ++ [i]).foldl upd st0) Pone N1) →
       Frag (pairsLoop one n st0) (pcs i0 ++ items.flatMap (fun y => [commaP, sp] ++ pcs y))
@@ -41,7 +41,7 @@ theorem frag_pairsLoop {σ ι : Type} (one : σ → PM σ) (pcs : ι → List Pi
   intro items
   induction items with
   | nil =>
-    intro st0 i0 n hn hone
+    intro st0 i0 n hn hhead hone
     cases n with
     | zero => omega
     | succ m =>
@@ -60,13 +60,13 @@ theorem frag_pairsLoop {σ ι : Type} (one : σ → PM σ) (pcs : ι → List Pi
         (fun line t ht => by simpa [mkToks] using (hP t ht).2)
       simpa using this
   | cons j rest ih =>
-    intro st0 i0 n hn hone
+    intro st0 i0 n hn hhead hone
     cases n with
     | zero => omega
     | succ m =>
       have h0 := hone [] i0 (j :: rest) rfl
       simp only [List.foldl_nil, List.nil_append, List.foldl_cons] at h0
-      have hih := ih (upd st0 i0) j m (by simp at hn; omega) (by
+      have hih := ih (upd st0 i0) j m (by simp at hn; omega) (fun i hi => hhead i (by simp [hi])) (by
         intro pre i post e
         have := hone (i0 :: pre) i post (by simp [e])
         simpa using this)
@@ -74,7 +74,7 @@ theorem frag_pairsLoop {σ ι : Type} (one : σ → PM σ) (pcs : ι → List Pi
       have hafter : Frag (optional [tEOL] >>= fun _ => pairsLoop one m (upd st0 i0))
           (pcs j ++ rest.flatMap (fun y => [commaP, sp] ++ pcs y)) ((j :: rest).foldl upd (upd st0 i0)) P N := by
         have := frag_then (frag_optional_no [tEOL]).toU hih (fun _ _ => trivial) (fun line t ht => by
-          obtain ⟨th, hth1, hth2⟩ := hhead j line
+          obtain ⟨th, hth1, hth2⟩ := hhead j (by simp) line
           rw [mkToks_append]
           cases hm : mkToks line (pcs j) with
           | nil => rw [hm] at hth1; cases hth1
